@@ -102,8 +102,7 @@ Definition abs_handle (cmd : command) (s : ss) : option (areply * ss) :=
         if negb (params_valid fpext sd params) then None else
         let '(x, sc') := pop_x sc in
         if negb (no_tag (x_ret x)) then None else
-        let p0 := {| p_params := sd_params sd; p_input := params; p_nullmap := None; p_col := 0;
-                     p_long := sd_long sd; p_bound := sd_bound sd |} in
+        let p0 := pstate_hdr sd params in
         match abs_pull (S (N.to_nat (sd_params sd))) (x_pull x) (x_convs x) p0 with
         | None => None
         | Some (cs, p) =>
